@@ -394,8 +394,15 @@ def formations_in_step(ctx):
         ctx.ok(o, "%d formation updates, none behind a dropping adaptor" % seen)
     else:
         ctx.undecided(o, "only %d formation update call(s) found" % seen)
-    must_depend(ctx, "R3.update-covers-nodes", "T1", UTF, "dec", [call(ND("is_depot"))],
-                "update_train_formation processes every moved non-depot node")
+    o, fd = ctx.require_fn("R3.update-covers-nodes", "T1", UTF, "update_train_formation processes every moved non-depot node")
+    if fd is not None:
+        # the depot test may sit in the loop, in a closure handed to an adaptor, or in a private helper
+        asked = call(ND("is_depot")) in fd.decision_slice()["atoms"]
+        for f in hosts(ctx, UTF):
+            asked = asked or any(c.callee == ND("is_depot") for c in f.body.calls()) \
+                or any(i.kind == "assign" and i.rv_kind() == "discr" and "discr:model::network::nodes::Node" in f.slice(seed_blocks=[i.bb], control=False)["atoms"]
+                       for i in f.body.instrs())
+        ctx.decide(o, asked, "the depot test is part of the update", "dec slice of update_train_formation lacks: %s" % ND("is_depot"))
     o, fd = ctx.require_fn("R3.update-writes-formation-per-node", "T1", UTF, "each processed node's formation is replaced by the result of the vehicle replacement")
     if fd is not None:
         ok = False
@@ -437,10 +444,14 @@ def rules(ctx):
     # the formation edits themselves (shared with C13): what update_train_formation books is what the edit puts into the vector
     from .C13 import formation_edits
     formation_edits(ctx, "R3")
+    from .C12 import path_new_checks_every_hop
+    path_new_checks_every_hop(ctx, "R4")     # a dead-head trip is listed for every hop of a tour: the hops were validated when the path was built
     dead_heads(ctx)
     from . import order
     order.pair_order(ctx, "R4", only={"solution::json_serialisation::schedule_dead_head_trip", N("minimal_duration_between_nodes")})
     order.depot_sides(ctx, "R1.depot-loads")
+    from .C02 import usage_queries_consult_the_map
+    usage_queries_consult_the_map(ctx, "R1.depot-loads")     # the overflow depot's load is reported like any other
     # "with the input's own origin, destination and times": the model the output is read from is the input (shared with C17)
     from .C17 import loader_subset, getters
     loader_subset(ctx, ["create_service_trip.", "create_service_trip-positional", "create_maintenance.", "create_maintenance-positional"])
